@@ -7,6 +7,7 @@ import (
 	"crypto/elliptic"
 	"crypto/rsa"
 	"encoding/json"
+	"errors"
 	"fmt"
 	"math/big"
 	"os"
@@ -792,6 +793,56 @@ func c18child(args []string) int {
 			done.Wait()
 		}
 	}
+	// one header TEMPLATE (maps shared, alg label spelt as a Go int) used by all goroutines for the Sign
+	// helpers, with the matching signer and with a signer of another algorithm: the template is read-only,
+	// the matching calls succeed and verify, the mismatching ones are refused - every time
+	for _, k := range keys.Keys[:4] {
+		other := keys.Keys[(indexOfKey(keys, k)+1)%4]
+		template := cose.Headers{Protected: cose.ProtectedHeader{int(1): k.Alg, int64(4): []byte("kid")}, Unprotected: cose.UnprotectedHeader{"note": "shared template"}}
+		before := mon.DeepHash(template)
+		var start, done sync.WaitGroup
+		start.Add(1)
+		for g := 0; g < G; g++ {
+			done.Add(1)
+			go func(g int) {
+				defer done.Done()
+				start.Wait()
+				for n := 0; n < 4; n++ {
+					payload := []byte(fmt.Sprintf("template %d/%d", g, n))
+					var problem string
+					if (g+n)%3 == 0 {
+						if _, err := cose.Sign1(gen.Entropy, other.Signer, template, payload, nil); !errors.Is(err, cose.ErrAlgorithmMismatch) {
+							problem = fmt.Sprintf("a signer of %s was not refused for a template naming %s: %v", other.Name, k.Name, err)
+						}
+					} else {
+						out, err := cose.Sign1(gen.Entropy, k.Signer, template, payload, nil)
+						var d cose.Sign1Message
+						if err != nil {
+							problem = "Sign1 failed: " + err.Error()
+						} else if e := d.UnmarshalCBOR(out); e != nil {
+							problem = "own output refused: " + e.Error()
+						} else if e := d.Verify(nil, k.Verifier); e != nil {
+							problem = "own output does not verify: " + e.Error()
+						}
+					}
+					signerOps.Add(1)
+					if problem != "" {
+						b, _ := json.Marshal(map[string]any{"object": "shared-header-template", "kind": "template", "alg": k.Name, "op": "Sign1 from a shared template", "got": problem, "want": "ok / ErrAlgorithmMismatch"})
+						mu.Lock()
+						if len(rep.Mismatches) < 20 {
+							rep.Mismatches = append(rep.Mismatches, b)
+						}
+						mu.Unlock()
+					}
+				}
+			}(g)
+		}
+		start.Done()
+		done.Wait()
+		if mon.DeepHash(template) != before {
+			rep.Mismatches = append(rep.Mismatches, json.RawMessage(`{"object":"shared-header-template","op":"Sign1","got":"the caller's header template was modified","want":"unchanged"}`))
+		}
+	}
 	// RSA keys assembled from raw components (n, e, d, p, q - as from a JWK or an HSM export) and never
 	// precomputed: the shared signer must treat the caller's key as read-only
 	for _, alg := range []cose.Algorithm{cose.AlgorithmPS256, cose.AlgorithmPS384, cose.AlgorithmPS512} {
@@ -964,4 +1015,13 @@ func c18coldChild(args []string) int {
 		}
 	}
 	return rc
+}
+
+func indexOfKey(kr *gen.KeyRing, k *gen.AlgKey) int {
+	for i, x := range kr.Keys {
+		if x == k {
+			return i
+		}
+	}
+	return 0
 }
